@@ -110,9 +110,10 @@ func getMoreSpecificPatterns(lessSpecific string) (*regexp.Regexp, error) {
 	pattern := "^" + regexp.QuoteMeta(lessSpecific) + "$"
 	// A ? can expand to any character except for a * or %, since that also has special meaning in patterns.
 
-	pattern = strings.Replace(pattern, "\\?", "[^\\*%]", -1)
+	// The wildcards are rewritten first so that the * and % inside the character class below are left alone.
 	pattern = strings.Replace(pattern, "\\*", ".*", -1)
 	pattern = strings.Replace(pattern, "%", ".*", -1)
+	pattern = strings.Replace(pattern, "\\?", "[^\\*%]", -1)
 	return regexp.Compile(pattern)
 }
 
